@@ -58,6 +58,30 @@ def gen(root, pkg, style, layout, home, extra_files=None):
     return pv, pg
 
 
+def line_multiset_diff(out_a: str, out_b: str):
+    """[(file, line only in a | None, line only in b | None)] over the generated Python, C++ and MATLAB files of two output trees"""
+    from collections import Counter
+    diffs = []
+    files = set()
+    for root in (out_a, out_b):
+        for dp, _, fs in os.walk(root):
+            for f in fs:
+                if f.endswith((".py", ".h", ".cc", ".m")) and "/yardl/" not in dp + "/" and "+yardl" not in dp and not f.startswith("_") and f != "yardl_types.py":
+                    files.add(os.path.relpath(os.path.join(dp, f), root))
+    for rel in sorted(files):
+        pa, pb = os.path.join(out_a, rel), os.path.join(out_b, rel)
+        if not (os.path.exists(pa) and os.path.exists(pb)):
+            diffs.append((rel, "missing in one layout", None))
+            continue
+        if rel.endswith(".m"):
+            continue      # MATLAB cannot be executed here: whether two texts behave alike is not decidable, only the set of generated files is compared
+        ca, cb = Counter(open(pa, errors="replace").read().split("\n")), Counter(open(pb, errors="replace").read().split("\n"))
+        only_a, only_b = list((ca - cb).elements()), list((cb - ca).elements())
+        if only_a or only_b:
+            diffs.append((rel, only_a[:2], only_b[:2]))
+    return diffs
+
+
 def run(ctx):
     common.build_yardl()
     quick = ctx.tier == "quick"
@@ -95,6 +119,12 @@ def run(ctx):
               "UzReading": Al("UzReading", u2()), "UzMaybe": Al("UzMaybe", u3()),
               "UzP": Proto("UzP", [("a", N("UzUser")), ("b", S(u2())), ("c", N("UzReading")), ("d", S(N("UzMaybe")))])}
         asts.append(("unionzoo%d" % i, Pkg("UnionZoo", [ds[n] for n in order])))
+    # one generic record instantiated with arguments that differ only in a fixed length / shape (the target languages' type syntax erases those)
+    f32 = P("float32")
+    asts.append(("fixedgeneric", Pkg("FixedGen", [Rec("Pair", [("first", TP("T")), ("second", TP("T"))], ("T",)), Rec("Gradient", [("g", N("Pair", (V(f32, 2),)))]),
+                                                  Rec("Orientation", [("o", N("Pair", (V(f32, 3),)))]), Rec("Shape2", [("s", N("Pair", (A(f32, ((None, 2), (None, 2))),)))]),
+                                                  Rec("Shape3", [("s", N("Pair", (A(f32, ((None, 3), (None, 3))),)))]),
+                                                  Proto("FgP", [("a", N("Gradient")), ("b", N("Orientation")), ("c", S(N("Shape2"))), ("d", N("Shape3"))])])))
     asts.append(("nestingzoo", Pkg("ZooPkg", [zoo, Proto("ZooP", [("z", N("Zoo")), ("s", S(V(V(oi)))), ("o", Opt(V(oi))), ("m", M(P("string"), V(oi)))])])))
 
     def one(item):
@@ -134,6 +164,9 @@ def run(ctx):
         p2 = copy.deepcopy(pkg)
         r.shuffle(p2.defs)
         variants.append(("permuted", p2, None))
+        p3 = copy.deepcopy(pkg)
+        p3.defs.reverse()
+        variants.append(("reversed", p3, None))
         nn = list(names)
         r.shuffle(nn)
         cut = max(1, len(nn) // 2)
@@ -158,6 +191,14 @@ def run(ctx):
                 ctx.violation("schema-differs:%s" % name, "%s: layout '%s' changes an embedded schema" % (key, name), {"case_dir": root})
                 ok_all = False
             else:
+                # what is generated for one definition does not depend on where the definition stands: the generated files of the two layouts
+                # consist of the same lines (in another order)
+                dl = line_multiset_diff(os.path.join(base, "ref_s", "out"), os.path.join(root, "out"))
+                ctx.count("layout-lines-compared")
+                if dl:
+                    ctx.violation("generated-lines-differ:%s" % name, "%s: layout '%s' changes the text generated for a definition (not only its position): %s" % (key, name, dl[:3]),
+                                  {"case_dir": root, "ref_dir": os.path.join(base, "ref_s"), "diff": dl[:20]})
+                    ok_all = False
                 # wire behaviour through the generated Python code of both layouts
                 try:
                     wire_compare(ctx, key, name, pkg, os.path.join(base, "ref_s"), root)
